@@ -5,6 +5,7 @@
 (* the float64 form ("of") of the very same (schema, value) is judged correctly.        *)
 EXTENDS SchemaSem
 
+Acc0(b) == IF b THEN "A" ELSE "R"
 IsCompound(e) == e.t \in {"arr", "obj"}
 
 (* F-C01-1: visitEnumOperation compares compound enum members with reflect.DeepEqual,   *)
@@ -32,12 +33,27 @@ EnumGoInt(s, v) ==
    /\ HasNum(v)
    /\ \E sub \in SubSchemas(s) : Has(sub, "enum") /\ \E i \in DOMAIN sub.enum : HasNum(sub.enum[i])
 
+(* F-C01-4: visitJSONObject tests the presence of a readOnly (request) / writeOnly (response) property with        *)
+(* value[name] != nil, so such a property that IS present, with the value null, passes the directed reading although *)
+(* the side forbids it to be sent.  Only the directed forms (oq / op), only when the value has a null member under     *)
+(* the name of a property the side forbids.                                                                           *)
+RECURSIVE HasNullMember(_, _)
+HasNullMember(v, key) ==
+   CASE v.t = "obj" -> \E i \in DOMAIN v.k : (v.k[i] = key /\ v.v[i].t = "null") \/ HasNullMember(v.v[i], key)
+     [] v.t = "arr" -> \E i \in DOMAIN v.a : HasNullMember(v.a[i], key)
+     [] OTHER -> FALSE
+SideNullPresent(s, v, side) ==
+   \E t \in SubSchemas(s) : Has(t, "pk") /\ \E i \in DOMAIN t.pk : SideForbidden(t.ps[i], side) /\ HasNullMember(v, t.pk[i])
+
 Class(line, i, form, v, want) ==
    IF form = "on" /\ line.of[i] = want /\ line.om[i] = want
-   THEN IF EnumNestedNumber(line.s, v) THEN "enum_nested_number_jsonnumber"
-        ELSE IF UniqueNumberSpelling(line.s, v) THEN "uniqueitems_number_spelling_jsonnumber"
+   \* the open class first: F-C01-1 is repaired (bc49a97), and a pair that fits both predicates must not be booked on the repaired one
+   THEN IF UniqueNumberSpelling(line.s, v) THEN "uniqueitems_number_spelling_jsonnumber"
+        ELSE IF EnumNestedNumber(line.s, v) THEN "enum_nested_number_jsonnumber"
         ELSE "none"
    ELSE IF form = "og" /\ line.of[i] = want /\ line.om[i] = want
    THEN IF EnumGoInt(line.s, v) THEN "enum_number_goint" ELSE "none"
+   ELSE IF form \in {"oq", "op"} /\ line.of[i] = Acc0(Valid(line.s, v, "plain"))
+   THEN IF SideNullPresent(line.s, v, IF form = "oq" THEN "asreq" ELSE "asrep") THEN "side_forbidden_property_null_present" ELSE "none"
    ELSE "none"
 =============================================================================
